@@ -3,6 +3,7 @@ package main
 // Verification condition generation: go/ssa -> SMT-LIB (passive encoding with reach conditions).
 
 import (
+	"math/big"
 	"fmt"
 	"go/token"
 	"go/types"
@@ -25,6 +26,7 @@ type Obligation struct {
 	Index  int // position in Items
 	Excuse string
 	Finding bool // listed in known_findings.txt
+	Witness string // replay: an extra assertion preferred when asking for a counterexample (e.g. a large request)
 }
 
 type Item struct {
@@ -402,7 +404,11 @@ func (tr *Tr) belowAlloc(v Val, A string) string {
 	switch v.Ty.Underlying().(type) {
 	case *types.Slice:
 		return app("<", app("s.arr", v.T), A)
-	case *types.Pointer, *types.Map, *types.Chan:
+	case *types.Pointer:
+		// the address of a member (negative) lies in an object that is itself allocated
+		tr.C.declare("owner", "(declare-fun owner (Int) Int)")
+		return and(app("<", v.T, A), implies(app("<", v.T, "0"), app("<", app("owner", v.T), A)))
+	case *types.Map, *types.Chan:
 		return app("<", v.T, A)
 	case *types.Interface:
 		return app("<", app("i.val", v.T), A) // boxes are negative (see box axioms), pointers are allocated
@@ -1019,23 +1025,29 @@ func (tr *Tr) loopNames(fr *frame, li *loopInfo, phiVals map[*ssa.Phi]Val) map[s
 	seen := map[string]bool{}
 	for b := li.header.Idom(); b != nil; b = b.Idom() {
 		for i := len(b.Instrs) - 1; i >= 0; i-- {
-			d, ok := b.Instrs[i].(*ssa.DebugRef)
-			if !ok || d.IsAddr || d.Object() == nil {
+			var n string
+			var dx ssa.Value
+			if phi, ok := b.Instrs[i].(*ssa.Phi); ok && phi.Comment != "" {
+				// the merged value of a variable assigned on several branches
+				n, dx = phi.Comment, phi
+			} else if d, ok := b.Instrs[i].(*ssa.DebugRef); ok && !d.IsAddr && d.Object() != nil {
+				n, dx = d.Object().Name(), d.X
+			} else {
 				continue
 			}
-			n := d.Object().Name()
 			if seen[n] || inLoop[n] {
 				continue
 			}
 			seen[n] = true
-			// another definition in a non-dominating block that precedes the header makes this stale
+			// another definition between b and the header (every block on a path from b to the header is
+			// dominated by b) that does not itself dominate the header makes this one stale
 			stale := false
 			for _, ob := range fr.fn.Blocks {
-				if ob == b || ob.Dominates(li.header) || li.blocks[ob] || ob.Index > li.header.Index {
+				if ob == b || !b.Dominates(ob) || ob.Dominates(li.header) || li.blocks[ob] || ob.Index > li.header.Index {
 					continue
 				}
 				for _, oi := range ob.Instrs {
-					if od, ok := oi.(*ssa.DebugRef); ok && !od.IsAddr && od.Object() == d.Object() && od.X != d.X {
+					if od, ok := oi.(*ssa.DebugRef); ok && !od.IsAddr && od.Object() != nil && od.Object().Name() == n && od.X != dx {
 						stale = true
 					}
 				}
@@ -1044,7 +1056,7 @@ func (tr *Tr) loopNames(fr *frame, li *loopInfo, phiVals map[*ssa.Phi]Val) map[s
 				amb[n] = true
 				continue
 			}
-			setName(n, d.X)
+			setName(n, dx)
 		}
 	}
 	for n := range amb {
@@ -1181,6 +1193,14 @@ func (tr *Tr) loopHeader(fr *frame, li *loopInfo) {
 		tr.assume("true", tr.belowAlloc(v, tr.C.hget(fr.heap, "ALLOC")))
 		fr.vals[phi] = v
 		curPhi[phi] = v
+		if phi.Comment == "rangeindex" && isInt(phi.Type()) {
+			// the hidden index of a range loop over a slice/array/string/int: go/ssa starts it at -1 and adds
+			// 1 while it stays below a length fixed before the loop, so it never goes below -1
+			// and stays at least one below the largest value of its type (it is below the length)
+			w := intWidth(phi.Type())
+			maxv := new(big.Int).Sub(new(big.Int).Lsh(big.NewInt(1), uint(w-1)), big.NewInt(1))
+			tr.assume("true", and(app("bvsge", v.T, bvI(-1, w)), app("bvslt", v.T, bvLit(maxv, w))))
+		}
 	}
 	// 3. assume the invariant
 	li.names = tr.loopNames(fr, li, curPhi)
